@@ -101,6 +101,9 @@ def calleeSaved : List GPR := [.rbx, .rbp, .r12, .r13, .r14, .r15]
 /-- registers a conforming callee may destroy -/
 def callerSaved : List GPR := [.rax, .rcx, .rdx, .rsi, .rdi, .r8, .r9, .r10, .r11]
 
+/-- all sixteen vector registers may be destroyed by a callee (3.2.1: none is preserved across calls) -/
+def callerSavedXmm : List Nat := [0, 1, 2, 3, 4, 5, 6, 7, 8, 9, 10, 11, 12, 13, 14, 15]
+
 /-- stack alignment demanded at a call instruction -/
 def alignedAtCall (rsp : Int) : Prop := rsp % 16 = 0
 /-- hence at function entry (return address pushed) -/
